@@ -21,7 +21,7 @@ pub enum Top {
 }
 
 /// Array lengths that are instantiated (const generics need a closed set).
-pub const ARRAY_LENS: &[usize] = &[0, 1, 2, 3, 4, 5, 6, 7, 8, 12, 16];
+pub const ARRAY_LENS: &[usize] = &[0, 1, 2, 3, 4, 5, 6, 7, 8, 12, 16, 256, 300];
 
 pub trait TupleOut {
     fn into_vec(self) -> Vec<Val>;
@@ -113,6 +113,8 @@ macro_rules! array_match {
             8 => { let $a: [_; 8] = v.try_into().ok().unwrap(); $body }
             12 => { let $a: [_; 12] = v.try_into().ok().unwrap(); $body }
             16 => { let $a: [_; 16] = v.try_into().ok().unwrap(); $body }
+            256 => { let $a: [_; 256] = v.try_into().ok().unwrap(); $body }
+            300 => { let $a: [_; 300] = v.try_into().ok().unwrap(); $body }
             n => panic!("harness: unsupported array length {}", n),
         }
     }};
@@ -292,26 +294,43 @@ pub fn build_snode(parent: NodeId, idx: usize, c: &ChildSpec) -> SNode {
     }
 }
 
+/// A caller's Vec often has spare capacity (push loops, with_capacity): give
+/// every third child vector some, so that nothing can rely on len == capacity.
+trait WithSlack {
+    fn with_slack(self) -> Self;
+}
+impl<T> WithSlack for Vec<T> {
+    fn with_slack(mut self) -> Self {
+        if self.len() % 3 == 1 {
+            self.reserve(self.len() + 5);
+        }
+        self
+    }
+}
+
 fn kids_f(id: NodeId, spec: &CombSpec) -> Vec<FNode> {
     spec.children
         .iter()
         .enumerate()
         .map(|(i, c)| build_fnode(id, i, c))
-        .collect()
+        .collect::<Vec<_>>()
+        .with_slack()
 }
 fn kids_r(id: NodeId, spec: &CombSpec) -> Vec<RNode> {
     spec.children
         .iter()
         .enumerate()
         .map(|(i, c)| build_rnode(id, i, c))
-        .collect()
+        .collect::<Vec<_>>()
+        .with_slack()
 }
 fn kids_s(id: NodeId, spec: &CombSpec) -> Vec<SNode> {
     spec.children
         .iter()
         .enumerate()
         .map(|(i, c)| build_snode(id, i, c))
-        .collect()
+        .collect::<Vec<_>>()
+        .with_slack()
 }
 
 pub fn build_f(parent: Option<NodeId>, idx: usize, spec: &CombSpec) -> (NodeId, BoxF) {
